@@ -267,6 +267,44 @@ func TestC10(t *testing.T) {
 		ev.NonTrivial(fmt.Sprintf("bigdistinct|%d", n))
 		return nil
 	})
+	// long lists with the interesting entries far apart (a word and its
+	// title-cased twin 70000 entries from each other, exact duplicates in
+	// distant places, a twin listed again later): the kept set is the same
+	ev.Fixed(t, "c10_big_far_apart", func(do func(int) bool) {
+		if ev.Cfg.Shard == 2%ev.Cfg.NShards {
+			do(70000 + int(ev.Cfg.Seed%5000))
+		}
+	}, func(n int) error {
+		words := make([]string, n)
+		for i := range words {
+			words[i] = fmt.Sprintf("w%07d", i)
+		}
+		words[0], words[n-1] = "polish", "Polish"
+		words[n/2], words[n/2+40000%(n/2)] = "Ice cream", "ice cream"
+		words[7], words[n-7] = "été", "été"
+		words[33000], words[33001], words[n-3] = "zulu", "Zulu", "Zulu"
+		words[n/3] = "w0000001" // an exact duplicate of an early entry
+		kept := oracle.Kept(words)
+		wl, err := spg.NewWordList(append([]string{}, words...))
+		if err != nil {
+			return err
+		}
+		if int(wl.Size()) != len(kept) {
+			return fmt.Errorf("list of %d entries with twins and duplicates far apart: Size() = %d, want %d kept words", n, wl.Size(), len(kept))
+		}
+		got, err := readKept(wl)
+		if err != nil {
+			return err
+		}
+		for i := range kept {
+			if got[i] != kept[i] {
+				return fmt.Errorf("list of %d entries with twins and duplicates far apart: kept word %d is %q, want %q", n, i, got[i], kept[i])
+			}
+		}
+		ev.Leaves(int64(len(kept)))
+		ev.NonTrivial(fmt.Sprintf("bigfar|%d", n))
+		return nil
+	})
 	ev.Fixed(t, "c10_shipped_slices", func(do func(c10Shipped) bool) {
 		if ev.Cfg.Shard != 0 {
 			return
